@@ -57,6 +57,28 @@ def check_same_source(ctx, F):
             ctx.unresolved('R4', role, b.defpath, 'chunker call not reached', key=key)
         else:
             ctx.ok('R4', role, b.defpath, '%d call(s), argument is self.state' % n, key=key)
+        # order: the chunker yields the most significant chunk first; everything that emits chunks (appends them to bulk,
+        # chains them behind bulk's words) must emit the least significant first, i.e. consume `.rev()` of it
+        emitters = []
+        for r in paths or []:
+            writes_in_loop = any(e['kind'] == 'call' and e['callee'].endswith('WriteWords::write') and e.get('loops') for e in r.events)
+            for e in r.events:
+                if e['kind'] == 'call' and e['callee'].endswith(('WriteWords::extend_from_iter', 'Iterator::chain')) and len(e.get('args_val') or e['args']) >= 2:
+                    emitters.append((e['callee'].rsplit('::', 1)[-1], (e.get('args_val') or e['args'])[1], e.get('span', '')))
+                if e['kind'] == 'loop_enter' and writes_in_loop:
+                    for k, v in e['pre'].items():
+                        if isinstance(v, tuple) and v and v[0] == 'call' and str(v[1]).endswith('IntoIterator::into_iter'):
+                            emitters.append(('for-loop that writes', v[2][0], ''))
+        if emitters:
+            k2 = 'R4/chunk-order/' + b.defpath
+            role2 = 'state chunks are emitted least significant first (the chunker is consumed through .rev())'
+            wrong = [(what, it) for what, it, sp in emitters if not (isinstance(it, tuple) and it and it[0] == 'call' and str(it[1]).endswith('Iterator::rev')
+                                                                      and not (it[2][0][0] == 'call' and str(it[2][0][1]).endswith('Iterator::rev')))]
+            if wrong:
+                ctx.bad('R4', role2, b.defpath, '%s receives %s: the chunks of the state reach the output most significant first, so for a state wider than two words the exported words are in the wrong order '
+                        '(the sibling exporters all consume `.rev()`)' % (wrong[0][0], sym.show(wrong[0][1])[:100]), key=k2, loc=rules.loc(b))
+            else:
+                ctx.ok('R4', role2, b.defpath, '%d emitting consumer(s), each takes Iterator::rev(..) of the chunk iterator' % len(emitters), key=k2)
 
 
 rules.callee = __import__('vlib.facts', fromlist=['callee']).callee
